@@ -187,9 +187,56 @@ def run_shard(spec):
             res["distinct"].append(tag + "|" + skip_tag)
             if i < 2:
                 res["samples"].append({"tag": tag, "skip": skip_tag, "files": {f.name: apm.r_file(f).splitlines()[:14] for f in prog.files}})
+        # literal bases: every spelling of a number, in and out of the 16-bit range, at each of the three sites
+        for i in range(spec["count"] // 8):
+            r = rnd.random()
+            if r < 0.3:
+                v = rnd.choice([0, 0o1000, 0o177776, 0o177777, 0o100000, -2, -0o177777, -0o100000, 0o200000, -0o200000, 65536, -65536, 0o1000000, 0o200001, 65535])
+            elif r < 0.6:
+                v = rnd.randrange(-(1 << 17), 1 << 17)
+            else:
+                v = rnd.randrange(-70000, 70000) if rnd.random() < 0.5 else rnd.randrange(0, 0x10000)
+            how = rnd.choice(["o", "o", "d", "x", "O", "bad8"])
+            mag = abs(v)
+            if how == "bad8":
+                # an octal-looking literal with a digit 8 or 9: not a number of any value
+                lit = ("-" if v < 0 else "") + str(mag % 10000) + rnd.choice("89") + str(rnd.randrange(10))
+            else:
+                lit = ("-" if v < 0 else "") + {"o": f"{mag:o}", "d": f"{mag}.", "x": f"^X{mag:x}", "O": f"^O{mag:o}"}[how]
+            site = rnd.choice(["link-first", "dot-first", "link-last"])
+            case = {"literal": lit, "value": v, "how": how, "site": site}
+            res["violations"].extend(run_case(case, cnt, root))
+            res["evaluations"] += 1
+            res["distinct"].append(f"literal|{how}|{site}|{'in' if -65536 < v < 65536 else 'out'}")
+            res["sets"]["kinds"].append(f"literal-{how}")
     finally:
         shutil.rmtree(root, ignore_errors=True)
     return res
+
+
+def run_literal(case, cnt):
+    from vlib import asm
+    lit, v, site = case["literal"], case["value"], case["site"]
+    body = ".byte 1, 2, 3\n"
+    src = {"link-first": f".link {lit}\n{body}", "dot-first": f". = {lit}\n{body}", "link-last": f"{body}.link {lit}\n"}[site]
+    o = asm.assemble([("/c12/lit.mac", src)])
+    cnt["literal_bases"] = cnt.get("literal_bases", 0) + 1
+    if o.cls == "stall":
+        return []
+    if case["how"] == "bad8":
+        if o.cls != "fail" or "invalid-number" not in o.ids("error"):
+            return [{"what": f"literal base {lit!r} ({site}) is not a number (digit 8/9 without the decimal point): expected invalid-number, got {o.brief()}", "case": case}]
+        cnt["rejections_confirmed"] += 1
+        return []
+    if -65536 < v < 65536:
+        if o.cls != "ok" or o.base != v % 65536 or o.code != bytes([1, 2, 3]):
+            return [{"what": f"literal base {lit!r} ({site}): expected base {v % 65536:#o}, got {o.brief()} base {o.base if o.cls == 'ok' else None}", "case": case}]
+        cnt["bases_compared"] += 1
+        return []
+    if o.cls != "fail" or not o.errors:
+        return [{"what": f"literal base {lit!r} ({site}) does not fit 16 bits: expected a reported error, got {o.brief()} base {oct(o.base) if o.cls == 'ok' else None}", "case": case}]
+    cnt["rejections_confirmed"] += 1
+    return []
 
 
 def run_case(case, cnt=None, root=None):
@@ -205,6 +252,8 @@ def run_case(case, cnt=None, root=None):
         root = tempfile.mkdtemp(prefix="c12-", dir=os.getcwd())
     out = []
     try:
+        if "literal" in case:
+            return run_literal(case, cnt)
         prog = apm.from_json(case["prog"])
         c = {}
         verdict, msgs, o, texts = refcheck.run_prog_case(prog, root, c)
